@@ -8,7 +8,8 @@ TRUSTED = [
     "Model/RRuleStr.lean is a hand model of rrule.__str__ and of _rrulestr._parse_rfc/_parse_rfc_rrule/_handle_* at the level of the keyword arguments handed to rrule()/rruleset; tied by the rrs.str / rrs.parse correspondence ops (the implementation's constructor calls are recorded in-process)",
     "date values go through parser.parse in the real code (C02); the model covers only the compact form YYYYMMDDTHHMMSS[Z] that __str__ emits — other spellings are compared on the implementation only",
     "rrule(**kwargs) itself is C01's constructor; 'same kwargs => same occurrences' is determinism of C01's model",
-    "TZID / tzids / tzinfos / ignoretz resolution is option plumbing: tied by the oracle on the implementation only (no theorem)",
+    "TZID resolution is modelled (tzidOf: name table from the text as written, case-insensitive, after the optional unfold; tzids lookup) and compared in the correspondence through a tzids callable that remembers the looked-up name; no theorem is stated about it; what ignoretz / tzinfos do inside parser.parse is C02",
+    "str_roundtrip_rule takes the two date values over unchanged (backArgs): parser.parse reading the compact text back is C02, tied by correspondence and oracle only; compact_roundtrip is about the driver's display helper",
     "the unfold loop (ICal.unfold, shared with C17) and RDATE/EXDATE/DTSTART parameters are in the model and the correspondence but no theorem is stated about them; multi_line_builds_set is for parameter-less lines joined by newlines without unfold",
 ]
 ASSUMPTIONS = [
@@ -787,7 +788,7 @@ def oracle(ctx):
     oracle_sets(ctx)
     oracle_malformed(ctx)
     rng = ctx.subrng("oracle")
-    n = ctx.budget(400, 10000)
+    n = ctx.budget(330, 10000)
     shown = 0
     # rules on which the model and str() disagreed come first (failing-input search after a correspondence mismatch)
     seeded = [m["rule"] for m in getattr(ctx, "c13_str_mismatch_rules", [])][:200]
